@@ -2,6 +2,8 @@ package mon
 
 import (
 	"fmt"
+	"reflect"
+	"strings"
 
 	vocab "github.com/go-ap/activitypub"
 
@@ -36,7 +38,7 @@ func init() {
 					x := g.BuildSingle(sc)
 					c.Count("field:"+sc.Kind.Name+"."+sc.Field.Term, 1)
 					c.Count("shape:"+sc.Shape, 1)
-					roundTrip(c, "gob", vmodel.Exact, gobPairs, x, sc.String(), nil)
+					singleVariants(c, "gob", vmodel.Exact, gobPairs, x, sc.String(), nil)
 				}},
 				{Name: "pair", N: len(pairCases), Exhaustive: true, Run: func(c *Ctx, idx int) {
 					pc := pairCases[idx]
@@ -71,6 +73,59 @@ func init() {
 				{Name: "all-names", N: 61 * 4, Exhaustive: true, Run: func(c *Ctx, idx int) {
 					x, label := allNamesValue(exactGen(c, true, idx), idx)
 					roundTrip(c, "gob", vmodel.Exact, gobPairs, x, label, nil)
+				}},
+				{Name: "bare-embedded", N: len(bareCases), Exhaustive: true, Run: func(c *Ctx, idx int) {
+					bc := bareCases[idx]
+					inner, host := exactGen(c, true, idx).BuildBare(bc, true)
+					c.Count("bare-embedded", 1)
+					roundTrip(c, "gob", vmodel.Exact, gobPairs, inner, bc.String()+" (top level)", nil)
+					roundTrip(c, "gob", vmodel.Exact, gobPairs, host, bc.String()+" (as activity.object and in tag)", nil)
+				}},
+				{Name: "near-equal-ids", N: len(vmodel.Kinds) * 6, Exhaustive: true, Run: func(c *Ctx, idx int) {
+					// members whose ids are distinct strings that the library's IRI equivalence treats alike (scheme, letter case,
+					// fragment, trailing slash); gob stores lists as they are, so all of them come back
+					g := exactGen(c, true, idx)
+					base := string(g.IRI())
+					up := "https://EXAMPLE.com" + base[strings.Index(base[8:], "/")+8:]
+					ids := []vocab.IRI{vocab.IRI(base), vocab.IRI("http" + base[5:]), vocab.IRI(base + "#frag"), vocab.IRI(base + "/"), vocab.IRI(up)}
+					lst := vocab.ItemCollection{}
+					for i, id := range ids {
+						switch (i + idx) % 3 {
+						case 0:
+							lst = append(lst, id)
+						case 1:
+							lst = append(lst, &vocab.Object{ID: id, Type: vocab.NoteType})
+						default:
+							lst = append(lst, &vocab.Actor{ID: id, Type: vocab.PersonType, Name: g.NLVShape("nlv1u")})
+						}
+					}
+					k := vmodel.Kinds[idx%len(vmodel.Kinds)]
+					var x vocab.Item
+					switch idx / len(vmodel.Kinds) {
+					case 0:
+						x = lst
+					case 1:
+						x = &vocab.OrderedCollection{ID: g.IRI(), Type: vocab.OrderedCollectionType, OrderedItems: lst}
+					case 2:
+						x = &vocab.Collection{ID: g.IRI(), Type: vocab.CollectionType, Items: lst}
+					default:
+						p := k.New()
+						f := []string{"To", "Tag", "CC"}[idx/len(vmodel.Kinds)-3]
+						fv := reflect.ValueOf(p).Elem().FieldByName(f)
+						if !fv.IsValid() {
+							return
+						}
+						reflect.ValueOf(p).Elem().FieldByName("ID").Set(reflect.ValueOf(g.IRI()))
+						reflect.ValueOf(p).Elem().FieldByName("Type").Set(reflect.ValueOf(vocab.ActivityVocabularyType(k.SpecificType())))
+						fv.Set(reflect.ValueOf(lst))
+						x = p.(vocab.Item)
+					}
+					c.Count("near-equal-id-lists", 1)
+					pairs := gobPairs
+					if _, isList := x.(vocab.ItemCollection); isList {
+						pairs = gobPairs[:1]
+					}
+					roundTrip(c, "gob", vmodel.Exact, pairs, x, fmt.Sprintf("near-equal ids in %T", x), nil)
 				}},
 				{Name: "deep", N: tierN(tier, 120, 2000), Run: func(c *Ctx, idx int) {
 					g := exactGen(c, false, idx)
